@@ -1142,6 +1142,38 @@ func (h *Hist) step() {
 				h.W("write", f, nd)
 			}
 		}
+	case "restore-dir-probe":
+		// a directory argument to `restore --staged` while the staging area and HEAD differ beneath it in several ways at
+		// once: one committed path unstaged (rm), one restaged with new content, one new path staged, siblings untouched —
+		// every path beneath the directory must come back to HEAD's state, the unstaged one re-created
+		if d, ok := h.pickDir(); ok && IsTrackedDir(h.obs, d) {
+			h.X(tz, "commit", "-m", "before the probe")
+			var under []string
+			for _, e := range h.obs.Index {
+				if strings.HasPrefix(string(e.path), d+"/") {
+					under = append(under, string(e.path))
+				}
+			}
+			if len(under) >= 2 {
+				i := r.intn(len(under))
+				h.X(tz, "rm", under[i])
+				if r.chance(2, 3) {
+					j := (i + 1 + r.intn(len(under)-1)) % len(under)
+					h.W("write", under[j], h.content())
+					h.X(tz, "add", under[j])
+				}
+				if r.chance(1, 2) {
+					n := d + "/" + h.comp()
+					if _, on := h.obs.Files[n]; !on && !IsTrackedDir(h.obs, n) {
+						h.W("write", n, h.content())
+						h.X(tz, "add", n)
+					}
+				}
+				h.X(tz, "restore", "--staged", d)
+				h.X(tz, "ls-files")
+				h.X(tz, "status")
+			}
+		}
 	case "fd-swap":
 		// a tracked directory replaced by a file of its name (or a tracked file by a directory), staged, then
 		// `restore --staged` / `status` / `commit` on that name: HEAD holds the other kind under the same name
